@@ -24,7 +24,7 @@ from .. import ent_check as EF
 
 PID = "C03"
 SK = [("table", 1), ("table", 2), ("table", 3), ("seq", 1), ("seq", 2), ("alter", 1), ("alter", 2), ("view", 1), ("view", 2), ("ext", 1), ("unsup", 1), ("unsup", 2),
-      ("unsup", 3), ("insert", 1), ("insert", 2), ("grant", 1), ("go", 1), ("set", 1), ("drop", 1)]
+      ("unsup", 3), ("insert", 1), ("insert", 2), ("upsert", 2), ("grant", 1), ("go", 1), ("set", 1), ("drop", 1)]
 
 
 def judge(V, behs, res, what, nl):
@@ -141,7 +141,7 @@ def run(tier, seed):
     thorough = tier == "thorough"
     cov = {"model_checked": [], "generation": []}
     states = trans = 0
-    cfgs = [("<=3 statements of 19 shapes", F.consts(SK, MaxStmts=3))]
+    cfgs = [("<=3 statements of 20 shapes", F.consts(SK, MaxStmts=3))]
     if thorough:
         cfgs.append(("<=4 statements of 10 shapes", F.consts([s for s in SK if s[1] == 1 or s[0] in ("table", "insert")], MaxStmts=4)))
     for what, cs in cfgs:
@@ -155,10 +155,16 @@ def run(tier, seed):
     r = EF.mc(EF.consts(MaxOpts=1, MaxStmts=3, WithTable="TRUE", groups=["start", "cache"]), "lexer sequence mode")
     states += r.distinct
     trans += r.generated
+    gd = c04.mc(c04.consts(WithHist="TRUE", Universe=c04.U1, MaxCreates=2, MaxStmts=5 if thorough else 4, Spells=c04.SS, DupCreates="TRUE", Lean="TRUE",
+                           Kinds='{"addcol","unique","index"}'), "re-created table (generation)")
+    nd_, _, ndb = c04.compare(V, gd.beh, [seed], "a table defined again: later ALTER / INDEX statements belong to the latest definition")
+    cov["generation"].append({"config": "registry: table re-created between ALTER / INDEX statements", "behaviours": len(gd.beh), "mismatches": ndb})
+    states += gd.distinct
+    trans += gd.generated
     F.mc(F.consts([("table", 2), ("seq", 1)], MaxStmts=2, CmStyles='{"block3"}', MaxCm=1, Variant='"mlc_sticky"'), "state carried over", expect="CleanBoundary")
     EF.mc(EF.consts(MaxOpts=1, MaxStmts=2, WithTable="TRUE", ResetSeq="FALSE"), "sequence mode not reset", expect="SeqModeLocal")
     cov["negative_controls"] = ["Assembler Variant=mlc_sticky refutes CleanBoundary", "Entities ResetSeq=FALSE refutes SeqModeLocal"]
-    total = 0
+    total = nd_
     drift = 0
     sample = None
     for what, cs in cfgs:
